@@ -94,6 +94,9 @@ pub fn contract_run(name: &str, seed: u64, stats: &mut BTreeMap<String, u64>) ->
     let bump = |stats: &mut BTreeMap<String, u64>, k: &str| *stats.entry(k.to_string()).or_insert(0) += 1;
     let cv = |class: &str, detail: String| ContractViolation { class: format!("{}:{}", class, name.split('+').last().filter(|_| class == "contract-wrapper").unwrap_or(name)), detail: format!("backend {}: {}", name, detail) };
     let mut a = open(name, &path).map_err(|c| cv("contract-open-abort", format!("constructing the backend does not return: {}", c.text())))?;
+    // persistent backends: a second handle on the same storage (a file-synchronisation tool, another
+    // process) through which a fifth of the writes go; the first handle must see them
+    let second: Option<Box<dyn Adapter>> = if persistent(name) { Some(open(name, &path).map_err(|c| cv("contract-open-abort", format!("constructing a second handle on the same storage does not return: {}", c.text())))?) } else { None };
     let mut model: BTreeMap<String, Vec<u8>> = BTreeMap::new();
     let mut keys: Vec<String> = vec![];
     let n = rng.range(10, 60);
@@ -101,13 +104,25 @@ pub fn contract_run(name: &str, seed: u64, stats: &mut BTreeMap<String, u64>) ->
         let k = rng.below(100);
         if k < 35 || keys.is_empty() {
             // write (35% of those to an existing key, with other bytes)
-            let key_ = if !keys.is_empty() && rng.chance(1, 3) { rng.pick(&keys).clone() } else { key(&mut rng) };
+            let mut key_ = if !keys.is_empty() && rng.chance(1, 3) { rng.pick(&keys).clone() } else { key(&mut rng) };
+            if !keys.is_empty() && rng.chance(1, 3) && key_.len() > 8 {
+                // same leading characters as an existing key (directory backends shard by them)
+                let k0 = rng.pick(&keys).clone();
+                if k0.len() >= 2 && k0.is_char_boundary(2) && key_.is_char_boundary(2) {
+                    key_ = format!("{}{}", &k0[..2], &key_[2..]);
+                }
+            }
             let data = bytes(&mut rng);
             bump(stats, "contract.write");
             if model.contains_key(&key_) {
                 bump(stats, "contract.second_write");
             }
-            let r = guard(|| a.write_object(&key_, &data)).map_err(|c| cv("contract-abort", format!("write_object({}, {} bytes) does not return: {}", key_, data.len(), c.text())))?;
+            let via_second = second.is_some() && rng.chance(1, 3);
+            if via_second {
+                bump(stats, "contract.write_via_second_handle");
+            }
+            let h: &dyn Adapter = if via_second { second.as_deref().unwrap() } else { a.as_ref() };
+            let r = guard(|| h.write_object(&key_, &data)).map_err(|c| cv("contract-abort", format!("write_object({}, {} bytes) does not return: {}", key_, data.len(), c.text())))?;
             if let Err(e) = r {
                 return Err(cv("contract-write-err", format!("write_object({}, {} bytes) failed: {}", key_, data.len(), e)));
             }
@@ -180,6 +195,7 @@ pub fn contract_run(name: &str, seed: u64, stats: &mut BTreeMap<String, u64>) ->
         }
     }
     drop(a);
+    drop(second);
     let _ = std::fs::remove_dir_all(&path);
     let _ = std::fs::remove_file(&path);
     Ok(())
